@@ -9,8 +9,8 @@ WORK = os.path.join(VERIF, "work")
 EVID = os.path.join(VERIF, "evidence")
 CORPUS = os.path.join(VERIF, "corpus")
 REPO = "/repo"
-DRIVER = os.path.join(LEAN, ".lake", "build", "bin", "driver")
-HBIN = os.path.join(HARNESS, "target", "debug", "harness")
+DRIVER = os.environ.get("VERIF_DRIVER") or os.path.join(LEAN, ".lake", "build", "bin", "driver")   # (override: development only)
+HBIN = os.environ.get("VERIF_HBIN") or os.path.join(HARNESS, "target", "debug", "harness")
 ALLOWED_AXIOMS = {"propext", "Classical.choice", "Quot.sound"}
 FORBIDDEN = re.compile(r"\b(sorry|admit|native_decide|bv_decide|implemented_by|unsafe)\b|^\s*axiom\s|maxHeartbeats\s+0")
 
